@@ -188,6 +188,11 @@ type (
 	}
 )
 
+type ebUC struct {
+	C string `"<" @Ident ">"`
+}
+
+func (ebUC) ebU() {}
 func (ebUA) ebU() {}
 func (ebUB) ebU() {}
 func (ebCustomV) ebC() {}
@@ -275,6 +280,14 @@ func ebnfNamedCases(res *xResult) {
 	ebnfCase[ebAnon](res, nil)
 	ebnfCase[ebEmbedded](res, nil)
 	ebnfCase[ebParens](res, nil)
+	// the same root type built again with other options: String() describes the parser it is called on
+	p2, err := participle.Build[ebUnionField](participle.Union[ebUnion](ebUA{}, ebUB{}, ebUC{}))
+	res.Evaluations++
+	if err != nil {
+		res.violate("Build[ebUnionField] with three union members: %v", err)
+	} else if text := p2.String(); !strings.Contains(text, "EbUC = ") || !strings.Contains(text, "EbUA | EbUB | EbUC") {
+		res.violate("String() of a second parser for the same root type with another Union option does not describe that parser: %q", text)
+	}
 	ebnfCase[ebUser](res, map[string]bool{"EbParseable": true, "ebParseable": true, "EbCustom": true},
 		participle.ParseTypeWith(func(lex *lexer.PeekingLexer) (ebCustom, error) { return ebCustomV{V: lex.Next().Value}, nil }))
 }
